@@ -72,6 +72,21 @@ def check_mstep(kind, b, a, info, problems):
         if not struct_same(b, a):
             problems.append('adaptation state changed on an iteration where the proposal does not jump')
         return
+    if kind == 'ssc':
+        # no end of adaptation; the covariance widens (narrows) in every direction when the cumulative rate is above (below) target
+        import numpy
+        niter = b['nsteps'] - (b['start'] - 1) + 1
+        rate = a['nacc'] / niter
+        d = numpy.asarray(a['cov']) - numpy.asarray(b['cov'])
+        w = numpy.linalg.eigvalsh((d + d.T) / 2)
+        tol = 1e-12 * abs(numpy.asarray(b['cov'])).max()
+        if rate > b['target'] and w.min() < -tol:
+            problems.append('cumulative acceptance rate %.3f above target %.3f narrowed the proposal in some direction (%s -> %s)' % (rate, b['target'], b['cov'], a['cov']))
+        if rate < b['target'] and w.max() > tol:
+            problems.append('cumulative acceptance rate %.3f below target %.3f widened the proposal in some direction (%s -> %s)' % (rate, b['target'], b['cov'], a['cov']))
+        if b['cap'] is not None and abs(numpy.asarray(a['cov'])).max() > max(b['cap'] ** 2, abs(numpy.asarray(b['cov'])).max()) * (1 + 1e-12):
+            problems.append('covariance entry above max_std**2 = %r: %s' % (b['cap'] ** 2, a['cov']))
+        return
     T, t = b['T'], b['target']
     dk = b['nsteps'] - b['start'] + 1
     if dk >= T or dk < 2:
@@ -137,13 +152,13 @@ def matrix_variants(out, rng, thorough):
                     if reset_at is not None and i == reset_at:
                         own['start'] = max(i // k, 1)
                     own_dk = i // k - own['start'] + 1
-                    if own_dk >= T and not struct_same(b, a, skip=('nsteps', 'start')):
+                    if kind != 'ssc' and own_dk >= T and not struct_same(b, a, skip=('nsteps', 'start')):
                         problems.append('proposal distribution changed %d proposal steps after its adaptation window started (duration %d)'
                                         % (own_dk, T))
                     if info['called']:
-                        terms.append(adaptm.coq_case(kind, b, a, info['ar'], info['ars'], info['x']))
+                        terms.append(adaptm.coq_case(kind, b, a, info['ar'], info['ars'], info['x'], accepted=info['accepted']))
                         meta.append(dict(desc, step=i, before=b, after=a, ar=info['ar'], ars=info['ars'], x=info['x']))
-                        if 1 < b['nsteps'] - b['start'] + 1 < b['T']:
+                        if kind != 'ssc' and 1 < b['nsteps'] - b['start'] + 1 < b['T']:
                             out.count('matrix_updates_inside_window')
                 adaptm.drive(name, T, k, start, hist, hk, rng, on_step, reset_at=reset_at, roundtrip_at=roundtrip_at, blobs=blobs)
                 accs = [h[1] for h in hist]
